@@ -163,11 +163,11 @@ structure Inv {α} (n E0 : Nat) (s : PSys St (Loc α) α α) : Prop where
 
 theorem cnt_set {α} (p : α → Bool) (l : List α) (i : Nat) (h : i < l.length) (x : α) :
     cnt p (l.set i x) + (if p l[i] then 1 else 0) = cnt p l + (if p x then 1 else 0) ∧
-    (if p l[i] then 1 else 0) ≤ cnt p l := by
+    (if p l[i] then 1 else 0) ≤ cnt p l ∧ (if p l[i] then 1 else 0) ≤ 1 ∧ (if p x then 1 else 0) ≤ 1 := by
   unfold cnt
   have h1 := List.countP_set (p := p) (l := l) (i := i) (a := x) h
   have h2 : (if p l[i] = true then 1 else 0) ≤ l.countP p := List.boole_getElem_le_countP (p := p) h
-  omega
+  refine ⟨by omega, h2, ?_, ?_⟩ <;> split <;> omega
 
 theorem forall_set {α} {P : α → Prop} {l : List α} {i : Nat} {x : α}
     (hl : ∀ a ∈ l, P a) (hx : P x) : ∀ a ∈ l.set i x, P a := by
